@@ -961,6 +961,11 @@ func (gen *Generator) GenerateAssignment(expr *SexpPair, assignPos int) error {
 	// of return value flow, rather than exact lhs to rhs count equality.
 
 	for i := range rhs {
+		if i > 0 {
+			// each def leaves its value: only the last one is the value of
+			// the whole assignment.
+			gen.AddInstruction(PopInstr(0))
+		}
 		err = gen.GenerateDef([]Sexp{lhs[i], rhs[i]}, "def")
 		if err != nil {
 			return err
